@@ -64,6 +64,11 @@ CLAIMED["C08"] = dict(
     text="For random treebanks in which one rule recurs in several trees and under different parents, every grammar type (treebank, leftright, optimal; deterministic and Markovized with v,h in 0..3, with/without nofanout) must satisfy: summed counts of the rules rewriting an original label = number of nodes with that label; for every symbol including binarization symbols, rewriting counts + tag count = count-weighted right-hand-side occurrences + root count; deterministic chains carry the total of their original rule; the lexicon is untouched.",
     note="Trusted: node/tag/root counts from the set model; extraction cross-checked against the reference extractor. The count fields of written grammar files are compared with the in-memory sums by the C09 check (same decoders).",
     ref="DESIGN.md section 2, C08")
+CLAIMED["C10"] = dict(
+    tech="Hypothesis head-marked (binary / binarized / n-ary) trees; three independent shift-reduce automata replay the emitted action strings over the sentence; reconstructed tree compared with the input (round trip); written files re-parsed; CLI subprocess",
+    text="Random head-marked trees with unary nodes at the root, in the middle and above tokens, one-token sentences, continuous (top-down, in-order) or discontinuous with nested gaps (gap) are given to transitions.topdown / inorder / gap. Hand-written automata that see only the sentence and the action strings execute the sequence; every token must be consumed, one item must remain, and it must equal the input tree in labels, dominance, unary nodes, root and head sides of binary nodes. The returned sentence, the line written by transitionoutput.plain (words or POS) and the file written by `treetools transitions` on an export file from the independent encoder are checked the same way.",
+    note="Trusted: the automata in checks/C10.py. Conventions pinned by the golden tests are parameters of the replayers (see ASSUMPTIONS in the evidence): a sequence is accepted if one documented reading replays it. Head flags of only children are not compared (UNARY carries no side).",
+    ref="DESIGN.md section 2, C10")
 PENDING_REASON = "check not built yet in this round (planned, see DESIGN.md section 6); not claimed until it is quiet on the unchanged tree"
 
 
